@@ -109,36 +109,33 @@ def check(ctx, report, facts, config):
     rule = "C16.CHECK"
     b = facts.one(name="with", self_head=A.PAR, container="inherent")
     report.touched(b, config)
-    paths = enumerate_paths(b, facts)
-
-    def strip(t):
-        while isinstance(t, tuple) and t and t[0] == "call" and S.callee_at(b, t[1]).name in TRANSPARENT and not S.callee_at(b, t[1]).local and t[2]:
-            t = t[2][0]
-        return t
-
+    from .. import semq as Q
+    ev, ends = Q.sem(ctx, facts, b, opaque=[A.F_CHECK_INTERSECTION])
     expected = set([frozenset(["OLD-W", "NEW-R"]), frozenset(["OLD-W", "NEW-W"]), frozenset(["OLD-R", "NEW-W"])])
     seen_pairs = set()
     n_ret = n_div = 0
-    for p in paths:
+    for e in ends:
         roles = {}
-        for e in p.effects:
-            if e[0] == "call" and e[2].trait == A.T_RUNWITHPOOL and e[2].name in ("reads", "writes") and len(e[3]) == 2:
-                who = e[3][0]
+        for x in e.path.events:
+            if x[0] == "call" and x[2].trait == A.T_RUNWITHPOOL and x[2].name in ("reads", "writes") and len(x[3]) == 2:
+                who = Q.strip(ev, x[3][0])
                 if who == ("field", ("param", 1), "head", A.PAR):
                     side = "OLD"
                 elif who == ("param", 2):
                     side = "NEW"
                 else:
                     side = "?"
-                roles[e[3][1]] = "%s-%s" % (side, "R" if e[2].name == "reads" else "W")
+                key = Q.strip(ev, x[3][1])
+                role = "%s-%s" % (side, "R" if x[2].name == "reads" else "W")
+                roles[key] = role if key not in roles else "mixed"
         conds = []
-        for (ct, cv, cn, cb) in p.conds:
-            if ct[0] == "call" and S.callee_at(b, ct[1]).key == A.F_CHECK_INTERSECTION:
-                pair = frozenset([roles.get(strip(ct[2][0]), "?"), roles.get(strip(ct[2][1]), "?")])
+        for (ct, cv, cn, cs) in e.path.conds:
+            if Q.is_call(ev, ct, "check_intersection") and Q.callee_of(ev, ct).key == A.F_CHECK_INTERSECTION:
+                pair = frozenset([roles.get(Q.strip(ev, ct[2][0]), "?"), roles.get(Q.strip(ev, ct[2][1]), "?")])
                 conds.append((pair, cv))
                 seen_pairs.add(pair)
         anyhit = any(v == 1 for _, v in conds)
-        if p.end == "return":
+        if e.kind == "return":
             n_ret += 1
             if anyhit:
                 report.ob(rule, "Par::with/accepts-conflict", False, "a path on which %s intersect returns normally" % sorted(sorted(x) for x, v in conds if v == 1), site=b.loc(), config=config)
@@ -146,17 +143,17 @@ def check(ctx, report, facts, config):
                 report.ob(rule, "Par::with/accept-path", False, "the accepting path tests %s (expected W/R, W/W, R/W)" % sorted(sorted(x) for x, _ in conds), site=b.loc(), config=config)
             else:
                 report.ob(rule, "Par::with/accept-path", True, "accepts only after all three intersections are empty", site=b.loc(), config=config)
-                ret = p.ret
+                ret = e.ret
                 ok = (ret[0] == "agg" and ret[2] == A.PAR + "::Par" and ret[3][0][0] == "agg" and ret[3][0][2] == A.PAR + "::Par"
                       and ret[3][0][3] == (("field", ("param", 1), "head", A.PAR), ("param", 2)) and ret[3][1][0] == "agg" and ret[3][1][2] == A.NIL + "::Nil")
-                report.ob(rule, "Par::with/wiring", ok, "returns Par { head: Par { head: self.head, tail: sys }, tail: Nil }" if ok else "unexpected result %s" % (ret,), site=b.loc(), config=config)
-        elif p.end == "diverge":
+                report.ob(rule, "Par::with/wiring", ok, "returns Par { head: Par { head: self.head, tail: sys }, tail: Nil }" if ok else "unexpected result %s" % (ret[:3],), site=b.loc(), config=config)
+        elif e.kind == "diverge":
             n_div += 1
             if not anyhit:
                 report.ob(rule, "Par::with/spurious-panic", False, "a path without any intersection panics", site=b.loc(), config=config)
     report.ob(rule, "Par::with/matrix", seen_pairs == expected,
               "intersections tested: %s" % sorted(sorted(x) for x in seen_pairs), site=b.loc(), config=config)
-    report.ob(rule, "Par::with/outcomes", n_ret >= 1 and n_div == 3, "%d accepting path(s), %d rejecting path(s) (expected 1 and 3)" % (n_ret, n_div), site=b.loc(), config=config)
+    report.ob(rule, "Par::with/outcomes", n_ret >= 1 and n_div >= 3, "%d accepting path(s), %d rejecting path(s) (expected 1 and one per intersection)" % (n_ret, n_div), site=b.loc(), config=config)
     # Seq::with / new wiring
     prog = ctx.program(facts)
     sw = facts.one(name="with", self_head=A.SEQ, container="inherent")
